@@ -347,6 +347,8 @@ func swarmOracle(r *rand.Rand, n int, tier string, infile string) (cases int, fa
 	}
 	fmt.Println("swarm oracle templates run in this slice:", strings.Join(ran, " "))
 	if start == 0 {
+		muxReopenCase(bad)
+		cases++
 		dupHoldCase("frag", bad)
 		dupHoldCase("mbapp", bad)
 		cases += 2
@@ -367,6 +369,41 @@ func swarmOracle(r *rand.Rand, n int, tier string, infile string) (cases int, fa
 }
 
 var closeDuringDone = map[string]bool{}
+
+// muxReopenCase (C12, repeated Close): a muxed channel is opened, closed, opened again under the same id, the stale
+// handle is closed a second time (a leftover deferred Close), then the live handle is closed: its blocked Receive and
+// ServeAsk calls and every later one must return an error promptly.
+func muxReopenCase(bad func(string, ...any)) {
+	realm := memswarm.NewRealm(memswarm.WithQueueLen(16), memswarm.WithMTU(2000))
+	m := p2pmux.NewStringAskMux[memswarm.Addr](realm.NewSwarm())
+	a := m.Open("chan")
+	a.Close()
+	b := m.Open("chan")
+	a.Close()
+	res := make(chan error, 2)
+	go func() { res <- b.Receive(context.Background(), func(p2p.Message[memswarm.Addr]) {}) }()
+	go func() {
+		res <- b.ServeAsk(context.Background(), func(context.Context, []byte, p2p.Message[memswarm.Addr]) int { return 0 })
+	}()
+	time.Sleep(20 * time.Millisecond)
+	b.Close()
+	for k := 0; k < 2; k++ {
+		select {
+		case err := <-res:
+			if err == nil {
+				bad("C12 strmux: a call blocked on a re-opened channel returned nil after Close")
+			}
+		case <-time.After(2 * time.Second):
+			bad("C12 strmux: channel opened, closed, re-opened, stale handle closed again, live handle closed: a blocked Receive/ServeAsk is still blocked 2s after Close returned")
+			return
+		}
+	}
+	ctx, cf := context.WithTimeout(context.Background(), 500*time.Millisecond)
+	defer cf()
+	if err := b.Receive(ctx, func(p2p.Message[memswarm.Addr]) {}); err == nil || ctx.Err() != nil {
+		bad("C12 strmux: Receive on the closed re-opened channel does not fail promptly (err=%v)", err)
+	}
+}
 
 // dupSwarm is a transport that duplicates: everything told through it arrives at once and again after a delay.
 type dupSwarm struct {
@@ -610,8 +647,17 @@ func swarmCase(r *rand.Rand, tpl template, seed int, bad func(string, ...any)) (
 						if afterClose[i] {
 							bad("C12 %s: a message was delivered to a callback after Close had returned", name)
 						}
-						got = append(got, delivery{i, addrText(m.Src), addrText(m.Dst), append([]byte{}, m.Payload...)})
+						entry := append([]byte{}, m.Payload...)
+						got = append(got, delivery{i, addrText(m.Src), addrText(m.Dst), entry})
+						hold := len(got)%3 == 0
 						mu.Unlock()
+						if hold {
+							// the callback owns its message while it runs (C14): other traffic to this node goes on meanwhile
+							time.Sleep(12 * time.Millisecond)
+							if !bytes.Equal(entry, m.Payload) {
+								bad("C14 %s: the payload a callback was given changed while the callback was running", name)
+							}
+						}
 					})
 					if err != nil {
 						recvErrs[i][g] = err
